@@ -85,6 +85,19 @@ func (g *G) VarName() string {
 		if g.R.Chance(1, 3) {
 			n += fmt.Sprint(g.R.Intn(1000))
 		}
+		if g.R.Chance(1, 5) {
+			// any identifier: every letter, digit and the underscore at every position
+			const first = "ABCDEFGHIJKLMNOPQRSTUVWXYZabcdefghijklmnopqrstuvwxyz_"
+			const rest = first + "0123456789"
+			b := []byte{first[g.R.Intn(len(first))]}
+			for k := g.R.Intn(8); k > 0; k-- {
+				b = append(b, rest[g.R.Intn(len(rest))])
+			}
+			n = string(b)
+		} else if g.R.Chance(1, 12) {
+			// a letter of a type name followed by a digit that makes no type
+			n = string("FIUBALfiubal"[g.R.Intn(12)]) + string("0123456789"[g.R.Intn(10)])
+		}
 		if !g.P.PlainNames && g.R.Chance(1, 6) {
 			if g.R.Chance(1, 4) {
 				n += fmt.Sprintf("[%0*d]", 2+g.R.Intn(2), g.R.Intn(12)) // v[07] and v[7] are two names
@@ -250,12 +263,31 @@ func (g *G) Scalar(k ref.Kind) *ref.Item {
 			}
 			return it
 		}
-		n := g.length(12, 1)
+		amax := 12
+		if g.P.MaxElems > amax {
+			amax = g.P.MaxElems
+		}
+		n := g.length(amax, 1)
+		if g.left > 80 && g.R.Chance(1, 25) {
+			// now and then a string far longer than the usual handful of characters (size thresholds in copies, buffers)
+			lim := g.left
+			if lim > 400 {
+				lim = 400
+			}
+			n = 13 + g.R.Intn(lim)
+		}
 		g.left -= n
 		it.Str = g.ASCII(n)
 		return it
 	}
 	n := g.length(g.P.MaxElems, w)
+	if g.left > 80*w && g.R.Chance(1, 25) {
+		lim := g.left / w
+		if lim > 300 {
+			lim = 300
+		}
+		n = g.P.MaxElems + 1 + g.R.Intn(lim)
+	}
 	g.left -= n * w
 	it.Slots = make([]ref.Slot, n)
 	for i := range it.Slots {
